@@ -63,10 +63,10 @@ Lemma smin_val w : 1 <= w <= 64 -> wfw w (get_signed_min w) /\ wn (get_signed_mi
 Proof. intros H. destruct (get_signed_min_spec w H) as (A & B & C). split; [split; [exact A|exact B]|exact C]. Qed.
 
 (* ---------------------------------------------------------------- well-formed intervals *)
-(* an interval of bitwidth w: bottom, the canonical top (of bitwidth 3), or two bounds of
-   bitwidth w *)
+(* an interval of bitwidth w: bottom, top (the canonical [0,7] of bitwidth 3 or any interval
+   with end - start = 2^width - 1), or two bounds of bitwidth w *)
 Definition iwf (w : Z) (i : witv) : Prop :=
-  wbot i = true \/ i = wi_top \/ (wbot i = false /\ wfw w (wstart i) /\ wfw w (wend i)).
+  wbot i = true \/ is_top i = true \/ (wbot i = false /\ wfw w (wstart i) /\ wfw w (wend i)).
 
 Definition gamma (w : Z) (i : witv) (x : wrapint) : Prop := wfw w x /\ wi_at i x = true.
 
@@ -87,7 +87,7 @@ Lemma iwf_range w i : iwf w i -> is_bottom i = false -> is_top i = false ->
 Proof.
   intros [B|[T|R]] NB NT.
   - unfold is_bottom in NB. congruence.
-  - subst i. discriminate.
+  - congruence.
   - exact R.
 Qed.
 
@@ -1229,3 +1229,1094 @@ Proof.
   - apply (exists_of_existsb w); [exact Hv|apply hemi_forall_base; exact Hc|apply Cc; exact Ga].
   - apply (exists_of_existsb w); [exact Hy|apply hemi_forall_base; exact Hx|apply Cx; exact Gx].
 Qed.
+
+(* ---------------------------------------------------------------- division *)
+
+
+(* pieces that do not cross the south pole, contain v as integers s <= v <= e *)
+Lemma gamma_mk_le w s e v : wfw w s -> wfw w e -> wfw w v -> wn s <= wn v <= wn e -> gamma w (wi_mk s e) v.
+Proof.
+  intros Hs He Hv L. apply gamma_mk_inb; try assumption. unfold inb. dec_all; lia.
+Qed.
+
+Lemma wmk_val_small n w : 1 <= w <= 64 -> 0 <= n < 2 ^ w -> wfw w (wmk n w) /\ wn (wmk n w) = n.
+Proof.
+  intros Hw Hn. pose proof (pow2_le_64 w ltac:(lia)).
+  destruct (wmk_wfw n w Hw ltac:(lia)) as [A B]. split; [exact A|]. rewrite B. apply Z.mod_small. exact Hn.
+Qed.
+
+Lemma wmk_minus_one w : 1 <= w <= 64 -> wfw w (wmk (two64 - 1) w) /\ wn (wmk (two64 - 1) w) = 2 ^ w - 1.
+Proof.
+  intros Hw. destruct (wmk_wfw (two64 - 1) w Hw) as [A B]; [vm_compute; split; [discriminate|reflexivity]|].
+  split; [exact A|]. rewrite B. rewrite two64_eq.
+  replace 64 with (w + (64 - w)) by lia. rewrite Z.pow_add_r by lia.
+  pose proof (pow2_pos w ltac:(lia)). pose proof (pow2_pos (64 - w) ltac:(lia)).
+  replace (2 ^ w * 2 ^ (64 - w) - 1) with ((2 ^ w - 1) + (2 ^ (64 - w) - 1) * 2 ^ w) by ring.
+  rewrite Z.mod_add by lia. apply Z.mod_small. lia.
+Qed.
+
+(* trim_zero on a piece that does not cross the south pole *)
+Lemma trim_zero_spec w i : sfree w i ->
+  Forall (fun d => sfree w d /\ 1 <= wn (wstart d) /\
+                   (wn (wend i) < 2 ^ (w - 1) -> wn (wend d) < 2 ^ (w - 1)) /\
+                   (2 ^ (w - 1) <= wn (wstart i) -> 2 ^ (w - 1) <= wn (wstart d))) (trim_zero i) /\
+  (forall y, gamma w i y -> wn y <> 0 -> Exists (fun d => gamma w d y) (trim_zero i)).
+Proof.
+  intros F. pose proof F as (B & Hs & He & L).
+  pose proof (wfw_range _ _ Hs) as [Hw Rs]. pose proof (wfw_range _ _ He) as [_ Re].
+  destruct (half_pow w ltac:(lia)) as [M2 HP].
+  unfold trim_zero. assert (get_bitwidth (wstart i) = w) as -> by apply Hs.
+  destruct (wmk_val_small 0 w Hw ltac:(lia)) as [Hz Vz].
+  destruct (wmk_val_small 1 w Hw ltac:(lia)) as [H1 V1].
+  destruct (wmk_minus_one w Hw) as [Hm Vm].
+  unfold is_bottom. rewrite B. cbn [negb andb].
+  destruct (wi_eq i (wi_single (wmk 0 w))) eqn:EQ; cbn [negb].
+  { split; [constructor|]. intros y G NZ. exfalso.
+    assert (iwf w i) as Wi by (right; right; auto).
+    apply (eq_sound w i _ y Wi (iwf_mk w _ _ Hz Hz) EQ) in G.
+    destruct (is_top (wi_single (wmk 0 w))) eqn:T.
+    - rewrite (is_top_cmp w) in T by (try reflexivity; assumption). cbn [wi_single wstart wend] in T.
+      rewrite Vz in T. dec_all.
+    - apply (gamma_single w _ y Hz G) in T. subst y. lia. }
+  unfold weq. rewrite Vz.
+  destruct (Z.eqb_spec (wn (wstart i)) 0) as [S0|S0].
+  { split.
+    - constructor; [|constructor]. cbn [wi_mk wstart wend]. rewrite V1.
+      split; [|split; [lia|split; [auto|lia]]].
+      split; [reflexivity|]. cbn [wi_mk wstart wend]. split; [exact H1|]. split; [exact He|]. rewrite V1.
+      (* the interval is not [0,0], so its end is at least 1 *)
+      destruct (Z.eq_dec (wn (wend i)) 0) as [E0|E0]; [|lia].
+      exfalso. assert (wi_eq i (wi_single (wmk 0 w)) = true); [|congruence].
+      unfold wi_eq.
+      assert (is_top i = false) as Ti by (rewrite (is_top_cmp w) by assumption; dec_all).
+      assert (is_top (wi_single (wmk 0 w)) = false) as Tz.
+      { rewrite (is_top_cmp w) by (try reflexivity; assumption). cbn [wi_single wstart wend]. rewrite Vz. dec_all. }
+      rewrite !(leq_inb w) by (try assumption; reflexivity). cbn [wi_single wstart wend]. rewrite Vz, S0, E0.
+      reflexivity.
+    - intros y G NZ. left. pose proof (sfree_bounds w i y F G) as By.
+      apply gamma_mk_le; [exact H1|exact He|apply G|]. rewrite V1. pose proof (wfw_range _ _ (proj1 G)). lia. }
+  destruct (Z.eqb_spec (wn (wend i)) 0) as [E0|E0]; [lia|].
+  assert (is_top i = false) as Ti by (rewrite (is_top_cmp w) by assumption; dec_all).
+  rewrite (at_inb w) by assumption. rewrite Vz. unfold inb.
+  destruct (Z.leb_spec (wn (wstart i)) (wn (wend i))); [|lia].
+  destruct (Z.leb_spec (wn (wstart i)) 0); [lia|]. cbn [andb].
+  split.
+  - constructor; [|constructor]. split; [exact F|]. split; [lia|]. auto.
+  - intros y G _. left. exact G.
+Qed.
+
+
+Lemma wudiv_val w a b : wfw w a -> wfw w b -> wn b <> 0 ->
+  exists r, wudiv a b = Some r /\ wfw w r /\ wn r = wn a / wn b.
+Proof.
+  intros [Wa Ea] [Wb Eb] NZ. pose proof (wudiv_spec a b Wa Wb (eq_trans Ea (eq_sym Eb))) as S.
+  destruct (wudiv a b) as [r|]; [|elim NZ; exact S].
+  destruct S as (_ & Wr & Er & Vr). exists r. split; [reflexivity|]. split; [split; [exact Wr|congruence]|exact Vr].
+Qed.
+
+Lemma div_mono s v e ds y de : 0 <= s <= v -> v <= e -> 1 <= ds <= y -> y <= de ->
+  s / de <= v / y <= e / ds.
+Proof.
+  intros H1 H2 H3 H4. split.
+  - apply Z.le_trans with (v / de); [apply Z.div_le_mono; lia|apply Z.div_le_compat_l; lia].
+  - apply Z.le_trans with (e / y); [apply Z.div_le_mono; lia|apply Z.div_le_compat_l; lia].
+Qed.
+
+(* divisor pieces: no zero, not across the south pole *)
+Definition divisor (w : Z) (d : witv) : Prop := sfree w d /\ 1 <= wn (wstart d).
+
+Lemma unsigned_div_sound w c d : sfree w c -> divisor w d ->
+  exists q, unsigned_div c d = Some q /\ iwf w q /\
+            forall v y, gamma w c v -> gamma w d y ->
+                        exists r, wudiv v y = Some r /\ gamma w q r.
+Proof.
+  intros Fc [Fd D1]. pose proof Fc as (Bc & Hs & He & Lc). pose proof Fd as (Bd & Hds & Hde & Ld).
+  unfold unsigned_div.
+  destruct (wudiv_val w _ _ Hs Hde ltac:(lia)) as (lo & E1 & Hlo & Vlo).
+  destruct (wudiv_val w _ _ He Hds ltac:(lia)) as (hi & E2 & Hhi & Vhi).
+  rewrite E1, E2. cbn [obind]. eexists. split; [reflexivity|]. split; [apply iwf_mk; assumption|].
+  intros v y Gv Gy. pose proof (sfree_bounds w c v Fc Gv) as Bv. pose proof (sfree_bounds w d y Fd Gy) as By.
+  destruct (wudiv_val w v y (proj1 Gv) (proj1 Gy) ltac:(lia)) as (r & E & Hr & Vr).
+  exists r. split; [exact E|]. apply gamma_mk_le; try assumption.
+  rewrite Vlo, Vhi, Vr. pose proof (wfw_range _ _ Hs) as [_ Rs]. apply div_mono; lia.
+Qed.
+
+(* the three nested loops of SDiv / UDiv *)
+Section DivFold.
+  Variable w : Z.
+  Variable dv : witv -> witv -> option witv.
+  Variable cop : wrapint -> wrapint -> option wrapint.
+  Variable PC PD : witv -> Prop.
+  Hypothesis dv_sound : forall c d, PC c -> PD d ->
+    exists q, dv c d = Some q /\ iwf w q /\
+              forall v y, gamma w c v -> gamma w d y -> exists r, cop v y = Some r /\ gamma w q r.
+
+  Lemma div_divisors_spec c ds : PC c -> Forall PD ds -> forall res, iwf w res ->
+    exists res', div_divisors dv c ds res = Some res' /\ iwf w res' /\
+      (forall r, gamma w res r -> gamma w res' r) /\
+      (forall v y, gamma w c v -> Exists (fun d => gamma w d y) ds ->
+                   exists r, cop v y = Some r /\ gamma w res' r).
+  Proof.
+    intros Pc F. induction F as [|d l Pd F IH]; intros res Wr; cbn [div_divisors].
+    - exists res. split; [reflexivity|]. split; [exact Wr|]. split; [auto|]. intros v y _ E. inversion E.
+    - destruct (dv_sound c d Pc Pd) as (q & Eq & Wq & Sq). rewrite Eq. cbn [obind].
+      destruct (IH (wi_join res q) (iwf_join w res q Wr Wq)) as (res' & E' & W' & M' & S').
+      exists res'. split; [exact E'|]. split; [exact W'|]. split.
+      + intros r G. apply M'. apply join_sound; auto.
+      + intros v y Gv E. inversion E as [? ? G|? ? E2]; subst.
+        * destruct (Sq v y Gv G) as (r & Er & Gr). exists r. split; [exact Er|].
+          apply M'. apply join_sound; auto.
+        * apply S'; assumption.
+  Qed.
+
+  Variable PX : witv -> Prop.
+  Hypothesis trim_ok : forall xc, PX xc ->
+    Forall PD (trim_zero xc) /\
+    (forall y, gamma w xc y -> wn y <> 0 -> Exists (fun d => gamma w d y) (trim_zero xc)).
+
+  Lemma div_xcuts_spec c xcuts : PC c -> Forall PX xcuts -> forall res, iwf w res ->
+    exists res', div_xcuts dv c xcuts res = Some res' /\ iwf w res' /\
+      (forall r, gamma w res r -> gamma w res' r) /\
+      (forall v y, gamma w c v -> Exists (fun xc => gamma w xc y) xcuts -> wn y <> 0 ->
+                   exists r, cop v y = Some r /\ gamma w res' r).
+  Proof.
+    intros Pc F. induction F as [|xc l Px F IH]; intros res Wr; cbn [div_xcuts].
+    - exists res. split; [reflexivity|]. split; [exact Wr|]. split; [auto|]. intros v y _ E. inversion E.
+    - destruct (trim_ok xc Px) as [T1 T2].
+      destruct (div_divisors_spec c _ Pc T1 res Wr) as (r1 & E1 & W1 & M1 & S1). rewrite E1. cbn [obind].
+      destruct (IH r1 W1) as (res' & E' & W' & M' & S').
+      exists res'. split; [exact E'|]. split; [exact W'|]. split.
+      + intros r G. apply M', M1, G.
+      + intros v y Gv E NZ. inversion E as [? ? G|? ? E2]; subst.
+        * destruct (S1 v y Gv (T2 y G NZ)) as (r & Er & Gr). exists r. split; [exact Er|apply M', Gr].
+        * apply S'; assumption.
+  Qed.
+
+  Lemma div_cuts_spec cuts xcuts : Forall PC cuts -> Forall PX xcuts -> forall res, iwf w res ->
+    exists res', div_cuts dv cuts xcuts res = Some res' /\ iwf w res' /\
+      (forall r, gamma w res r -> gamma w res' r) /\
+      (forall v y, Exists (fun c => gamma w c v) cuts -> Exists (fun xc => gamma w xc y) xcuts ->
+                   wn y <> 0 -> exists r, cop v y = Some r /\ gamma w res' r).
+  Proof.
+    intros F Fx. induction F as [|c l Pc F IH]; intros res Wr; cbn [div_cuts].
+    - exists res. split; [reflexivity|]. split; [exact Wr|]. split; [auto|]. intros v y E. inversion E.
+    - destruct (div_xcuts_spec c xcuts Pc Fx res Wr) as (r1 & E1 & W1 & M1 & S1). rewrite E1. cbn [obind].
+      destruct (IH r1 W1) as (res' & E' & W' & M' & S').
+      exists res'. split; [exact E'|]. split; [exact W'|]. split.
+      + intros r G. apply M', M1, G.
+      + intros v y E Ey NZ. inversion E as [? ? G|? ? E2]; subst.
+        * destruct (S1 v y G Ey NZ) as (r & Er & Gr). exists r. split; [exact Er|apply M', Gr].
+        * apply S'; assumption.
+  Qed.
+End DivFold.
+
+Lemma sfree_forall_base w l : Forall (sfree w) l ->
+  Forall (fun p => wbot p = false /\ wfw w (wstart p) /\ wfw w (wend p)) l.
+Proof. intros F. eapply Forall_impl; [|exact F]. intros p (A & B & C & _). auto. Qed.
+
+Theorem udiv_sound w a x v y : iwf w a -> iwf w x -> gamma w a v -> gamma w x y -> wn y <> 0 ->
+  exists q r, wi_udiv a x = Some q /\ iwf w q /\ wudiv v y = Some r /\ gamma w q r.
+Proof.
+  intros Wa Wx Ga Gx NZ. unfold wi_udiv.
+  assert (wfw w v) as Hv by apply Ga. assert (wfw w y) as Hy by apply Gx.
+  destruct (wudiv_val w v y Hv Hy NZ) as (r0 & Er0 & Hr0 & _).
+  destruct (is_bottom a) eqn:Ba; [elim (gamma_bot w a v Ba Ga)|].
+  destruct (is_bottom x) eqn:Bx; [elim (gamma_bot w x y Bx Gx)|]. cbn [orb].
+  destruct (is_top a) eqn:Ta.
+  { exists wi_top, r0. split; [reflexivity|]. split; [apply iwf_top|]. split; [exact Er0|].
+    apply gamma_top; [reflexivity|exact Hr0]. }
+  destruct (is_top x) eqn:Tx.
+  { exists wi_top, r0. split; [reflexivity|]. split; [apply iwf_top|]. split; [exact Er0|].
+    apply gamma_top; [reflexivity|exact Hr0]. }
+  cbn [orb].
+  destruct (unsigned_split_spec w a (range_nt_of w a Wa Ba Ta)) as (cuts & Ec & Fc & Cc).
+  destruct (unsigned_split_spec w x (range_nt_of w x Wx Bx Tx)) as (x_cuts & Ex & Fx & Cx).
+  rewrite Ec, Ex. cbn [obind].
+  destruct (div_cuts_spec w unsigned_div wudiv (sfree w) (divisor w) (unsigned_div_sound w) (sfree w)
+              (fun xc F => let (T1, T2) := trim_zero_spec w xc F in
+                           conj (Forall_impl _ (fun d H => conj (proj1 H) (proj1 (proj2 H))) T1) T2)
+              cuts x_cuts Fc Fx wi_bottom (iwf_bottom w)) as (q & Eq & Wq & _ & Sq).
+  destruct (Sq v y) as (r & Er & Gr).
+  - apply (exists_of_existsb w); [exact Hv|apply sfree_forall_base; exact Fc|apply Cc; exact Ga].
+  - apply (exists_of_existsb w); [exact Hy|apply sfree_forall_base; exact Fx|apply Cx; exact Gx].
+  - exact NZ.
+  - exists q, r. auto.
+Qed.
+
+
+Lemma wsdiv_val w a b : wfw w a -> wfw w b -> wn b <> 0 ->
+  exists r, wsdiv a b = Some r /\ wfw w r /\ wn r = Z.quot (to_sZ a) (to_sZ b) mod 2 ^ w.
+Proof.
+  intros [Wa Ea] [Wb Eb] NZ. pose proof (wsdiv_spec a b Wa Wb (eq_trans Ea (eq_sym Eb))) as S.
+  destruct (wsdiv a b) as [r|]; [|elim NZ; exact S].
+  destruct S as (_ & Wr & Er & Vr). exists r. split; [reflexivity|]. split; [split; [exact Wr|congruence]|].
+  unfold to_Z, wrap in Vr. rewrite Vr, Ea. reflexivity.
+Qed.
+
+(* monotonicity of the truncating quotient, by signs *)
+Lemma quot_mono_pp a1 a a2 b1 b b2 : 0 <= a1 <= a -> a <= a2 -> 0 < b1 <= b -> b <= b2 ->
+  Z.quot a1 b2 <= Z.quot a b <= Z.quot a2 b1.
+Proof.
+  intros. rewrite !Z.quot_div_nonneg by lia.
+  split.
+  - apply Z.le_trans with (a / b2); [apply Z.div_le_mono; lia|apply Z.div_le_compat_l; lia].
+  - apply Z.le_trans with (a2 / b); [apply Z.div_le_mono; lia|apply Z.div_le_compat_l; lia].
+Qed.
+Lemma quot_mono_nn a1 a a2 b1 b b2 : a1 <= a -> a <= a2 <= 0 -> b1 <= b -> b <= b2 < 0 ->
+  Z.quot a2 b1 <= Z.quot a b <= Z.quot a1 b2.
+Proof.
+  intros. rewrite <- (Z.quot_opp_opp a2 b1), <- (Z.quot_opp_opp a b), <- (Z.quot_opp_opp a1 b2) by lia.
+  apply quot_mono_pp; lia.
+Qed.
+Lemma quot_mono_np a1 a a2 b1 b b2 : a1 <= a -> a <= a2 <= 0 -> 0 < b1 <= b -> b <= b2 ->
+  Z.quot a1 b1 <= Z.quot a b <= Z.quot a2 b2.
+Proof.
+  intros. pose proof (quot_mono_pp (- a2) (- a) (- a1) b1 b b2 ltac:(lia) ltac:(lia) ltac:(lia) ltac:(lia)) as Q.
+  rewrite !Z.quot_opp_l in Q by lia. lia.
+Qed.
+Lemma quot_mono_pn a1 a a2 b1 b b2 : 0 <= a1 <= a -> a <= a2 -> b1 <= b -> b <= b2 < 0 ->
+  Z.quot a2 b2 <= Z.quot a b <= Z.quot a1 b1.
+Proof.
+  intros. pose proof (quot_mono_pp a1 a a2 (- b2) (- b) (- b1) ltac:(lia) ltac:(lia) ltac:(lia) ltac:(lia)) as Q.
+  rewrite !Z.quot_opp_r in Q by lia. lia.
+Qed.
+
+Lemma quot_abs_le a b : b <> 0 -> Z.abs (Z.quot a b) <= Z.abs a.
+Proof.
+  intros Hb. rewrite <- Z.quot_abs by lia. apply Z.quot_le_upper_bound; [lia|]. nia.
+Qed.
+
+Definition sdivisor (w : Z) (d : witv) : Prop := hemi w d /\ 1 <= wn (wstart d).
+
+(* signed values of the members of a piece within one hemisphere *)
+Lemma hemi_signed w c v : hemi w c -> gamma w c v ->
+  let H := 2 ^ (w - 1) in
+  (wn (wend c) < H /\ to_sZ (wstart c) = wn (wstart c) /\ to_sZ v = wn v /\ to_sZ (wend c) = wn (wend c) /\
+   0 <= wn (wstart c) <= wn v /\ wn v <= wn (wend c)) \/
+  (H <= wn (wstart c) /\ to_sZ (wstart c) = wn (wstart c) - 2 ^ w /\ to_sZ v = wn v - 2 ^ w /\
+   to_sZ (wend c) = wn (wend c) - 2 ^ w /\
+   wn (wstart c) <= wn v /\ wn v <= wn (wend c) /\ wn (wend c) < 2 ^ w).
+Proof.
+  intros Hc G. pose proof (sfree_bounds w c v (hemi_sfree w c Hc) G) as Bv.
+  destruct Hc as (B & Hs & He & L & HM). pose proof (wfw_range _ _ Hs) as [Hw Rs]. pose proof (wfw_range _ _ He) as [_ Re].
+  rewrite (to_sZ_val w _ Hs), (to_sZ_val w _ He), (to_sZ_val w _ (proj1 G)). cbv zeta.
+  destruct HM as [HM|HM]; [left|right];
+  destruct (Z.ltb_spec (wn (wstart c)) (2 ^ (w - 1))); destruct (Z.ltb_spec (wn (wend c)) (2 ^ (w - 1)));
+  destruct (Z.ltb_spec (wn v) (2 ^ (w - 1))); lia.
+Qed.
+
+Lemma signed_div_sound w c d : hemi w c -> sdivisor w d ->
+  exists q, signed_div c d = Some q /\ iwf w q /\
+            forall v y, gamma w c v -> gamma w d y ->
+                        exists r, wsdiv v y = Some r /\ gamma w q r.
+Proof.
+  intros Hc [Hd D1]. pose proof Hc as (Bc & Hs & He & Lc & HMc). pose proof Hd as (Bd & Hds & Hde & Ld & HMd).
+  pose proof (wfw_range _ _ Hs) as [Hw Rs]. pose proof (wfw_range _ _ He) as [_ Re].
+  pose proof (wfw_range _ _ Hds) as [_ Rds]. pose proof (wfw_range _ _ Hde) as [_ Rde].
+  destruct (half_pow w ltac:(lia)) as [M2 HP].
+  destruct (wsdiv_val w _ _ Hs Hds ltac:(lia)) as (qss & Ess & Hss & Vss).
+  destruct (wsdiv_val w _ _ Hs Hde ltac:(lia)) as (qse & Ese & Hse & Vse).
+  destruct (wsdiv_val w _ _ He Hds ltac:(lia)) as (qes & Ees & Hes & Ves).
+  destruct (wsdiv_val w _ _ He Hde ltac:(lia)) as (qee & Eee & Hee & Vee).
+  (* generic conclusion: any pair of bounds lo, hi with lo <= quot <= hi *)
+  assert (forall lo hi qlo qhi, wfw w qlo -> wfw w qhi -> wn qlo = lo mod 2 ^ w -> wn qhi = hi mod 2 ^ w ->
+            hi - lo < 2 ^ w ->
+            (forall v y, gamma w c v -> gamma w d y -> lo <= Z.quot (to_sZ v) (to_sZ y) <= hi) ->
+            forall v y, gamma w c v -> gamma w d y -> exists r, wsdiv v y = Some r /\ gamma w (wi_mk qlo qhi) r) as K.
+  { intros lo hi qlo qhi Hlo Hhi Vlo Vhi Hd' Hb v y Gv Gy.
+    pose proof (sfree_bounds w d y (hemi_sfree w d Hd) Gy) as By.
+    destruct (wsdiv_val w v y (proj1 Gv) (proj1 Gy) ltac:(lia)) as (r & Er & Hr & Vr).
+    exists r. split; [exact Er|]. apply gamma_mk; try assumption. rewrite Vr, Vlo, Vhi.
+    apply interval_mod_Z; [lia|apply Hb; assumption|exact Hd']. }
+  assert (forall a b, wfw w a -> wfw w b -> wn b <> 0 -> - 2 ^ (w - 1) <= Z.quot (to_sZ a) (to_sZ b) <= 2 ^ (w - 1)) as QB.
+  { intros a b Ha Hb NZ. pose proof (to_sZ_range a (proj1 Ha)) as Ra. destruct Ha as [_ Ea]. rewrite Ea in Ra.
+    assert (to_sZ b <> 0) as NZs by (rewrite to_sZ_zero by apply Hb; exact NZ).
+    pose proof (quot_abs_le (to_sZ a) (to_sZ b) NZs). lia. }
+  unfold signed_div. rewrite (msb_val w _ Hs), (msb_val w _ Hds).
+  rewrite Ess, Ese, Ees, Eee. cbn [obind].
+  destruct (Z.leb_spec (2 ^ (w - 1)) (wn (wstart c))) as [C1|C1];
+  destruct (Z.leb_spec (2 ^ (w - 1)) (wn (wstart d))) as [C2|C2]; cbn [eqb];
+  match goal with |- context [if negb ?g then _ else _] => destruct g end; cbn [negb];
+  try (eexists; split; [reflexivity|]; split; [apply iwf_top|];
+       intros v y Gv Gy; pose proof (sfree_bounds w d y (hemi_sfree w d Hd) Gy);
+       destruct (wsdiv_val w v y (proj1 Gv) (proj1 Gy) ltac:(lia)) as (r & Er & Hr & _);
+       exists r; split; [exact Er|apply gamma_top; [reflexivity|exact Hr]]);
+  (eexists; split; [reflexivity|]; split; [apply iwf_mk; assumption|]).
+  - (* both negative *)
+    apply (K _ _ _ _ Hes Hse Ves Vse).
+    + pose proof (QB _ _ He Hds ltac:(lia)). pose proof (QB _ _ Hs Hde ltac:(lia)).
+      assert (0 <= Z.quot (to_sZ (wend c)) (to_sZ (wstart d))).
+      { rewrite (to_sZ_val w _ He), (to_sZ_val w _ Hds).
+        destruct (Z.ltb_spec (wn (wend c)) (2 ^ (w - 1))); [lia|]. destruct (Z.ltb_spec (wn (wstart d)) (2 ^ (w - 1))); [lia|].
+        rewrite <- Z.quot_opp_opp by lia. apply Z.quot_pos; lia. }
+      lia.
+    + intros v y Gv Gy. destruct (hemi_signed w c v Hc Gv) as [X|X]; [lia|].
+      destruct (hemi_signed w d y Hd Gy) as [Y|Y]; [lia|].
+      destruct X as (_ & -> & -> & -> & ?). destruct Y as (_ & -> & -> & -> & ?).
+      apply quot_mono_nn; lia.
+  - (* dividend negative, divisor positive *)
+    apply (K _ _ _ _ Hss Hee Vss Vee).
+    + pose proof (QB _ _ Hs Hds ltac:(lia)). pose proof (QB _ _ He Hde ltac:(lia)).
+      assert (Z.quot (to_sZ (wend c)) (to_sZ (wend d)) <= 0).
+      { rewrite (to_sZ_val w _ He), (to_sZ_val w _ Hde).
+        destruct (Z.ltb_spec (wn (wend c)) (2 ^ (w - 1))); [lia|].
+        destruct HMd as [HMd|HMd]; [|lia]. destruct (Z.ltb_spec (wn (wend d)) (2 ^ (w - 1))); [|lia].
+        pose proof (Z.quot_pos (- (wn (wend c) - 2 ^ w)) (wn (wend d)) ltac:(lia) ltac:(lia)) as Q.
+        rewrite Z.quot_opp_l in Q by lia. lia. }
+      lia.
+    + intros v y Gv Gy. destruct (hemi_signed w c v Hc Gv) as [X|X]; [lia|].
+      destruct (hemi_signed w d y Hd Gy) as [Y|Y]; [|lia].
+      destruct X as (_ & -> & -> & -> & ?). destruct Y as (_ & -> & -> & -> & ?).
+      apply quot_mono_np; lia.
+  - (* dividend positive, divisor negative *)
+    apply (K _ _ _ _ Hee Hss Vee Vss).
+    + pose proof (QB _ _ Hs Hds ltac:(lia)). pose proof (QB _ _ He Hde ltac:(lia)).
+      assert (Z.quot (to_sZ (wstart c)) (to_sZ (wstart d)) <= 0).
+      { rewrite (to_sZ_val w _ Hs), (to_sZ_val w _ Hds).
+        destruct (Z.ltb_spec (wn (wstart c)) (2 ^ (w - 1))); [|lia].
+        destruct (Z.ltb_spec (wn (wstart d)) (2 ^ (w - 1))); [lia|].
+        pose proof (Z.quot_pos (wn (wstart c)) (- (wn (wstart d) - 2 ^ w)) ltac:(lia) ltac:(lia)) as Q.
+        rewrite Z.quot_opp_r in Q by lia. lia. }
+      lia.
+    + intros v y Gv Gy. destruct (hemi_signed w c v Hc Gv) as [X|X]; [|lia].
+      destruct (hemi_signed w d y Hd Gy) as [Y|Y]; [lia|].
+      destruct X as (_ & -> & -> & -> & ?). destruct Y as (_ & -> & -> & -> & ?).
+      apply quot_mono_pn; lia.
+  - (* both positive *)
+    apply (K _ _ _ _ Hse Hes Vse Ves).
+    + pose proof (QB _ _ He Hds ltac:(lia)). pose proof (QB _ _ Hs Hde ltac:(lia)).
+      assert (0 <= Z.quot (to_sZ (wstart c)) (to_sZ (wend d))).
+      { rewrite (to_sZ_val w _ Hs), (to_sZ_val w _ Hde).
+        destruct (Z.ltb_spec (wn (wstart c)) (2 ^ (w - 1))); [|lia].
+        destruct HMd as [HMd|HMd]; [|lia]. destruct (Z.ltb_spec (wn (wend d)) (2 ^ (w - 1))); [|lia].
+        apply Z.quot_pos; lia. }
+      lia.
+    + intros v y Gv Gy. destruct (hemi_signed w c v Hc Gv) as [X|X]; [|lia].
+      destruct (hemi_signed w d y Hd Gy) as [Y|Y]; [|lia].
+      destruct X as (_ & -> & -> & -> & ?). destruct Y as (_ & -> & -> & -> & ?).
+      apply quot_mono_pp; lia.
+Qed.
+
+Lemma trim_zero_hemi w xc : hemi w xc ->
+  Forall (sdivisor w) (trim_zero xc) /\
+  (forall y, gamma w xc y -> wn y <> 0 -> Exists (fun d => gamma w d y) (trim_zero xc)).
+Proof.
+  intros Hx. destruct (trim_zero_spec w xc (hemi_sfree w xc Hx)) as [T1 T2]. split; [|exact T2].
+  eapply Forall_impl; [|exact T1]. intros d ((B & Hs & He & L) & D1 & K1 & K2).
+  destruct Hx as (_ & _ & _ & _ & HM).
+  split; [|exact D1]. split; [exact B|]. split; [exact Hs|]. split; [exact He|]. split; [exact L|].
+  destruct HM as [HM|HM]; [left; auto|right; auto].
+Qed.
+
+Theorem sdiv_sound w a x v y : iwf w a -> iwf w x -> gamma w a v -> gamma w x y -> wn y <> 0 ->
+  exists q r, wi_sdiv a x = Some q /\ iwf w q /\ wsdiv v y = Some r /\ gamma w q r.
+Proof.
+  intros Wa Wx Ga Gx NZ. unfold wi_sdiv.
+  assert (wfw w v) as Hv by apply Ga. assert (wfw w y) as Hy by apply Gx.
+  destruct (wsdiv_val w v y Hv Hy NZ) as (r0 & Er0 & Hr0 & _).
+  destruct (is_bottom a) eqn:Ba; [elim (gamma_bot w a v Ba Ga)|].
+  destruct (is_bottom x) eqn:Bx; [elim (gamma_bot w x y Bx Gx)|]. cbn [orb].
+  destruct (is_top a) eqn:Ta.
+  { exists wi_top, r0. split; [reflexivity|]. split; [apply iwf_top|]. split; [exact Er0|].
+    apply gamma_top; [reflexivity|exact Hr0]. }
+  destruct (is_top x) eqn:Tx.
+  { exists wi_top, r0. split; [reflexivity|]. split; [apply iwf_top|]. split; [exact Er0|].
+    apply gamma_top; [reflexivity|exact Hr0]. }
+  cbn [orb].
+  destruct (sus_split_spec w a (range_nt_of w a Wa Ba Ta)) as (cuts & Ec & Fc & Cc).
+  destruct (sus_split_spec w x (range_nt_of w x Wx Bx Tx)) as (x_cuts & Ex & Fx & Cx).
+  rewrite Ec, Ex. cbn [obind].
+  destruct (div_cuts_spec w signed_div wsdiv (hemi w) (sdivisor w) (signed_div_sound w) (hemi w)
+              (trim_zero_hemi w) cuts x_cuts Fc Fx wi_bottom (iwf_bottom w)) as (q & Eq & Wq & _ & Sq).
+  destruct (Sq v y) as (r & Er & Gr).
+  - apply (exists_of_existsb w); [exact Hv|apply hemi_forall_base; exact Fc|apply Cc; exact Ga].
+  - apply (exists_of_existsb w); [exact Hy|apply hemi_forall_base; exact Fx|apply Cx; exact Gx].
+  - exact NZ.
+  - exists q, r. auto.
+Qed.
+
+(* ---------------------------------------------------------------- right shifts *)
+
+
+Lemma leq_ulimit w i : range_nt w i ->
+  wi_leq (unsigned_limit w) i = negb (wn (wstart i) <=? wn (wend i)).
+Proof.
+  intros R. pose proof R as (B & T & Hs & He).
+  pose proof (wfw_range _ _ Hs) as [Hw Rs]. pose proof (wfw_range _ _ He) as [_ Re].
+  destruct (umax_val w Hw) as [Hmax Vmax]. destruct (umin_val w Hw) as [Hmin Vmin].
+  pose proof T as T'. rewrite (is_top_cmp w) in T by assumption.
+  destruct (half_pow w ltac:(lia)) as [M2 HP].
+  destruct (is_top (unsigned_limit w)) eqn:TL.
+  - assert (wi_leq (unsigned_limit w) i = false) as ->.
+    { unfold wi_leq, is_bottom. rewrite B, T', TL. reflexivity. }
+    rewrite (is_top_cmp w) in TL by (try reflexivity; assumption). cbn [unsigned_limit wi_mk wstart wend] in TL.
+    rewrite Vmax, Vmin in TL. clear T'. dec_all.
+  - rewrite (leq_inb w) by (try assumption; reflexivity).
+    cbn [unsigned_limit wi_mk wstart wend]. rewrite Vmax, Vmin. unfold inb.
+    clear TL T'. dec_all.
+Qed.
+
+Lemma leq_slimit w i : range_nt w i -> wi_leq (signed_limit w) i = cross_north w i.
+Proof.
+  intros R. pose proof R as (B & T & Hs & He).
+  pose proof (wfw_range _ _ Hs) as [Hw Rs]. pose proof (wfw_range _ _ He) as [_ Re].
+  destruct (smax_val w Hw) as [Hmax Vmax]. destruct (smin_val w Hw) as [Hmin Vmin].
+  destruct (half_pow w ltac:(lia)) as [M2 HP].
+  pose proof T as T'. rewrite (is_top_cmp w) in T by assumption. unfold cross_north.
+  destruct (is_top (signed_limit w)) eqn:TL.
+  - assert (wi_leq (signed_limit w) i = false) as ->.
+    { unfold wi_leq, is_bottom. rewrite B, T', TL. reflexivity. }
+    rewrite (is_top_cmp w) in TL by (try reflexivity; assumption). cbn [signed_limit wi_mk wstart wend] in TL.
+    rewrite Vmax, Vmin in TL. clear T'. dec_all.
+  - rewrite (leq_inb w) by (try assumption; reflexivity).
+    cbn [signed_limit wi_mk wstart wend]. rewrite Vmax, Vmin. unfold inb.
+    clear TL T'. dec_all.
+Qed.
+
+Lemma cross_unsigned_limit_val w i : range_nt w i ->
+  cross_unsigned_limit i = Some (negb (wn (wstart i) <=? wn (wend i))).
+Proof. intros R. unfold cross_unsigned_limit. rewrite (bitwidth_range w i R). cbn [obind]. rewrite (leq_ulimit w i R). reflexivity. Qed.
+Lemma cross_signed_limit_val w i : range_nt w i -> cross_signed_limit i = Some (cross_north w i).
+Proof. intros R. unfold cross_signed_limit. rewrite (bitwidth_range w i R). cbn [obind]. rewrite (leq_slimit w i R). reflexivity. Qed.
+
+Lemma wlshr_val w a k : wfw w a -> wfw w k -> wn k < 64 ->
+  exists r, wlshr a k = Some r /\ wfw w r /\ wn r = wn a / 2 ^ wn k.
+Proof.
+  intros [Wa Ea] [Wk Ek] K. destruct (wlshr_spec a k Wa Wk (eq_trans Ea (eq_sym Ek)) K) as (r & E & Wr & Er & Vr).
+  exists r. split; [exact E|]. split; [split; [exact Wr|congruence]|exact Vr].
+Qed.
+Lemma washr_val w a k : wfw w a -> wfw w k -> wn k < 64 ->
+  exists r, washr a k = Some r /\ wfw w r /\ wn r = (to_sZ a / 2 ^ wn k) mod 2 ^ w.
+Proof.
+  intros [Wa Ea] [Wk Ek] K. destruct (washr_spec a k Wa Wk (eq_trans Ea (eq_sym Ek)) K) as (r & E & Wr & Er & Vr).
+  exists r. split; [exact E|]. split; [split; [exact Wr|congruence]|]. unfold to_Z, wrap in Vr. rewrite Vr, Ea. reflexivity.
+Qed.
+Lemma wshl_val w a k : wfw w a -> wfw w k -> wn k < 64 ->
+  exists r, wshl a k = Some r /\ wfw w r /\ wn r = (wn a * 2 ^ wn k) mod 2 ^ w.
+Proof.
+  intros [Wa Ea] [Wk Ek] K. destruct (wshl_spec a k Wa Wk (eq_trans Ea (eq_sym Ek)) K) as (r & E & Wr & Er & Vr).
+  exists r. split; [exact E|]. split; [split; [exact Wr|congruence]|]. unfold to_Z, wrap in Vr. rewrite Vr, Ea. reflexivity.
+Qed.
+
+(* the shift amount of the interval operators: the value of a w-bit number *)
+Lemma wmk_amount w k : wfw w k -> wmk (wn k) w = k.
+Proof.
+  intros Hk. pose proof (wfw_range _ _ Hk) as [Hw Rk]. destruct (wmk_val_small (wn k) w Hw Rk) as [[_ E] V].
+  apply wrapint_eq; [rewrite E; symmetry; apply Hk|exact V].
+Qed.
+
+Lemma lshr_k_sound w a kk v : iwf w a -> gamma w a v -> wfw w kk -> wn kk < 64 ->
+  exists q r, wi_lshr_k a (wn kk) = Some q /\ iwf w q /\ wlshr v kk = Some r /\ gamma w q r.
+Proof.
+  intros Wa Ga Hk K. assert (wfw w v) as Hv by apply Ga.
+  destruct (wlshr_val w v kk Hv Hk K) as (r & Er & Hr & Vr).
+  unfold wi_lshr_k. destruct (is_bottom a) eqn:Ba; [elim (gamma_bot w a v Ba Ga)|].
+  destruct (is_top a) eqn:Ta.
+  { exists a, r. split; [reflexivity|]. split; [exact Wa|]. split; [exact Er|]. apply gamma_top; assumption. }
+  pose proof (range_nt_of w a Wa Ba Ta) as R. pose proof R as (B & _ & Hs & He).
+  rewrite (cross_unsigned_limit_val w a R). cbn [obind].
+  destruct (Z.leb_spec (wn (wstart a)) (wn (wend a))) as [L|L]; cbn [negb].
+  - assert (get_bitwidth (wstart a) = w) as -> by apply Hs. rewrite (wmk_amount w kk Hk).
+    destruct (wlshr_val w _ kk Hs Hk K) as (lo & Elo & Hlo & Vlo).
+    destruct (wlshr_val w _ kk He Hk K) as (hi & Ehi & Hhi & Vhi).
+    rewrite Elo, Ehi. cbn [obind]. exists (wi_mk lo hi), r. split; [reflexivity|]. split; [apply iwf_mk; assumption|].
+    split; [exact Er|]. apply gamma_mk_le; try assumption. rewrite Vlo, Vhi, Vr.
+    pose proof (sfree_bounds w a v (conj B (conj Hs (conj He L))) Ga) as Bv.
+    pose proof (wfw_range _ _ Hk) as [_ Rk]. pose proof (pow2_pos (wn kk) ltac:(lia)).
+    split; apply Z.div_le_mono; lia.
+  - exists wi_top, r. split; [reflexivity|]. split; [apply iwf_top|]. split; [exact Er|].
+    apply gamma_top; [reflexivity|exact Hr].
+Qed.
+
+(* members of an interval that does not cross the north pole, in the signed order *)
+Lemma signed_bounds w a v : range_nt w a -> cross_north w a = false -> gamma w a v ->
+  to_sZ (wstart a) <= to_sZ v <= to_sZ (wend a).
+Proof.
+  intros (B & T & Hs & He) CN G. pose proof (gamma_inb w a v B T Hs He G) as I.
+  pose proof (wfw_range _ _ Hs) as [Hw Rs]. pose proof (wfw_range _ _ He) as [_ Re].
+  pose proof (wfw_range _ _ (proj1 G)) as [_ Rv]. destruct (half_pow w ltac:(lia)) as [M2 HP].
+  rewrite (to_sZ_val w _ Hs), (to_sZ_val w _ He), (to_sZ_val w _ (proj1 G)).
+  unfold cross_north in CN. unfold inb in I. clear T. dec_all; lia.
+Qed.
+
+Lemma ashr_k_sound w a kk v : iwf w a -> gamma w a v -> wfw w kk -> wn kk < 64 ->
+  exists q r, wi_ashr_k a (wn kk) = Some q /\ iwf w q /\ washr v kk = Some r /\ gamma w q r.
+Proof.
+  intros Wa Ga Hk K. assert (wfw w v) as Hv by apply Ga.
+  destruct (washr_val w v kk Hv Hk K) as (r & Er & Hr & Vr).
+  unfold wi_ashr_k. destruct (is_bottom a) eqn:Ba; [elim (gamma_bot w a v Ba Ga)|].
+  destruct (is_top a) eqn:Ta.
+  { exists a, r. split; [reflexivity|]. split; [exact Wa|]. split; [exact Er|]. apply gamma_top; assumption. }
+  pose proof (range_nt_of w a Wa Ba Ta) as R. pose proof R as (B & _ & Hs & He).
+  rewrite (cross_signed_limit_val w a R). cbn [obind].
+  destruct (cross_north w a) eqn:CN; cbn [negb].
+  - exists wi_top, r. split; [reflexivity|]. split; [apply iwf_top|]. split; [exact Er|].
+    apply gamma_top; [reflexivity|exact Hr].
+  - assert (get_bitwidth (wstart a) = w) as -> by apply Hs. rewrite (wmk_amount w kk Hk).
+    destruct (washr_val w _ kk Hs Hk K) as (lo & Elo & Hlo & Vlo).
+    destruct (washr_val w _ kk He Hk K) as (hi & Ehi & Hhi & Vhi).
+    rewrite Elo, Ehi. cbn [obind]. exists (wi_mk lo hi), r. split; [reflexivity|]. split; [apply iwf_mk; assumption|].
+    split; [exact Er|]. apply gamma_mk; try assumption. rewrite Vlo, Vhi, Vr.
+    pose proof (signed_bounds w a v R CN Ga) as Bv.
+    pose proof (wfw_range _ _ Hk) as [Hw Rk]. pose proof (pow2_pos (wn kk) ltac:(lia)) as PK.
+    pose proof (to_sZ_range _ (proj1 Hs)) as R1. pose proof (to_sZ_range _ (proj1 He)) as R2.
+    destruct Hs as [_ Es]. destruct He as [_ Ee]. rewrite Es in R1. rewrite Ee in R2.
+    destruct (half_pow w ltac:(lia)) as [M2 HP].
+    apply interval_mod_Z; [lia|split; apply Z.div_le_mono; lia|].
+    assert (- 2 ^ (w - 1) <= to_sZ (wstart a) / 2 ^ wn kk) by (apply Z.div_le_lower_bound; nia).
+    assert (to_sZ (wend a) / 2 ^ wn kk < 2 ^ (w - 1)) by (apply Z.div_lt_upper_bound; nia).
+    lia.
+Qed.
+
+Lemma single_member w x kk : iwf w x -> is_singleton x = true -> gamma w x kk -> kk = wstart x.
+Proof.
+  intros Wx S G. unfold is_singleton in S. apply andb_true_iff in S. destruct S as [S E].
+  apply andb_true_iff in S. destruct S as [B T]. apply negb_true_iff in B, T.
+  destruct (iwf_range w x Wx B T) as (B' & Hs & He).
+  assert (wend x = wstart x) as EE.
+  { symmetry. apply weq_true; [|exact E]. destruct Hs as [_ ->]. destruct He as [_ ->]. reflexivity. }
+  assert (x = wi_single (wstart x)) as X.
+  { destruct x as [s e b]. cbn in *. subst. reflexivity. }
+  rewrite X in G, T. apply (gamma_single w _ kk Hs G T).
+Qed.
+
+Theorem lshr_sound w a x v kk : iwf w a -> iwf w x -> gamma w a v -> gamma w x kk -> wn kk < 64 ->
+  exists q r, wi_lshr a x = Some q /\ iwf w q /\ wlshr v kk = Some r /\ gamma w q r.
+Proof.
+  intros Wa Wx Ga Gx K. unfold wi_lshr.
+  destruct (is_bottom a) eqn:Ba; [elim (gamma_bot w a v Ba Ga)|].
+  destruct (is_singleton x) eqn:S.
+  - rewrite <- (single_member w x kk Wx S Gx). unfold get_uint64_t. apply lshr_k_sound; try assumption. apply Gx.
+  - destruct (wlshr_val w v kk (proj1 Ga) (proj1 Gx) K) as (r & Er & Hr & _).
+    exists wi_top, r. split; [reflexivity|]. split; [apply iwf_top|]. split; [exact Er|].
+    apply gamma_top; [reflexivity|exact Hr].
+Qed.
+
+Theorem ashr_sound w a x v kk : iwf w a -> iwf w x -> gamma w a v -> gamma w x kk -> wn kk < 64 ->
+  exists q r, wi_ashr a x = Some q /\ iwf w q /\ washr v kk = Some r /\ gamma w q r.
+Proof.
+  intros Wa Wx Ga Gx K. unfold wi_ashr.
+  destruct (is_bottom a) eqn:Ba; [elim (gamma_bot w a v Ba Ga)|].
+  destruct (is_singleton x) eqn:S.
+  - rewrite <- (single_member w x kk Wx S Gx). unfold get_uint64_t. apply ashr_k_sound; try assumption. apply Gx.
+  - destruct (washr_val w v kk (proj1 Ga) (proj1 Gx) K) as (r & Er & Hr & _).
+    exists wi_top, r. split; [reflexivity|]. split; [apply iwf_top|]. split; [exact Er|].
+    apply gamma_top; [reflexivity|exact Hr].
+Qed.
+
+(* ---------------------------------------------------------------- truncation, left shift *)
+
+
+Lemma mod_eq_small M a b : 0 < M -> a mod M = b mod M -> - M < a - b < M -> a = b.
+Proof.
+  intros HM E R.
+  pose proof (Z.div_mod a M ltac:(lia)) as Da. pose proof (Z.div_mod b M ltac:(lia)) as Db.
+  assert (a - b = M * (a / M - b / M)) as D by lia.
+  assert (a / M - b / M = 0) by nia. lia.
+Qed.
+
+Lemma wkeep_lower_val w a k : wfw w a -> 1 <= k < w ->
+  exists r, wkeep_lower a k = Some r /\ wfw k r /\ wn r = wn a mod 2 ^ k.
+Proof.
+  intros [Wa Ea] Hk. pose proof (wkeep_lower_spec a k Wa ltac:(lia)) as S.
+  destruct (wkeep_lower a k) as [r|]; [|lia].
+  destruct S as (Wr & [[L _]|(_ & Er & Vr)]); [lia|].
+  exists r. split; [reflexivity|]. split; [split; assumption|exact Vr].
+Qed.
+
+(* the signed reading split into a block number and the low bits *)
+Lemma signed_blocks w k x : wfw w x -> 1 <= k < w ->
+  let L := 2 ^ k in
+  to_sZ x = (to_sZ x / L) * L + wn x mod L /\
+  - 2 ^ (w - 1 - k) <= to_sZ x / L < 2 ^ (w - 1 - k).
+Proof.
+  intros Hx Hk L. pose proof (wfw_range _ _ Hx) as [Hw Rx].
+  pose proof (to_sZ_range x (proj1 Hx)) as R. destruct Hx as [Wx Ex]. rewrite Ex in R.
+  assert (0 < L) as HL by (apply pow2_pos; lia).
+  assert (2 ^ (w - 1) = 2 ^ (w - 1 - k) * L) as E1.
+  { unfold L. rewrite <- Z.pow_add_r by lia. f_equal. lia. }
+  assert (2 ^ w = 2 * 2 ^ (w - 1 - k) * L) as E2 by (rewrite (pow2_split w) by lia; lia).
+  assert (to_sZ x mod L = wn x mod L) as EM.
+  { unfold to_sZ, signed_of. rewrite Ex. destruct (_ <? _); [reflexivity|].
+    rewrite E2. replace (wn x - 2 * 2 ^ (w - 1 - k) * L) with (wn x + (- (2 * 2 ^ (w - 1 - k))) * L) by ring.
+    apply Z.mod_add. lia. }
+  split.
+  - rewrite <- EM. rewrite Z.mul_comm. apply Z.div_mod. lia.
+  - split; [apply Z.div_le_lower_bound; [lia|]; nia|apply Z.div_lt_upper_bound; [lia|]; nia].
+Qed.
+
+(* Trunc either returns top or the distance between the bounds is below 2^k and the low
+   bits of the bounds delimit the low bits of the members *)
+Lemma trunc_range w i k : range_nt w i -> 1 <= k < w ->
+  exists q, wi_trunc i k = Some q /\
+    (q = wi_top \/
+     exists ls le, q = wi_mk ls le /\ wfw k ls /\ wfw k le /\
+       wn ls = wn (wstart i) mod 2 ^ k /\ wn le = wn (wend i) mod 2 ^ k /\
+       (wn (wend i) - wn (wstart i)) mod 2 ^ w < 2 ^ k /\
+       (wn (wend i) - wn (wstart i)) mod 2 ^ w = (wn le - wn ls) mod 2 ^ k).
+Proof.
+  intros R Hk. pose proof R as (B & T & Hs & He).
+  pose proof (wfw_range _ _ Hs) as [Hw Rs]. pose proof (wfw_range _ _ He) as [_ Re].
+  unfold wi_trunc, is_bottom. rewrite B, T. cbn [orb].
+  assert (get_bitwidth (wstart i) = w) as -> by apply Hs.
+  assert (0 < 2 ^ k) as HL by (apply pow2_pos; lia).
+  assert (2 ^ k < 2 ^ w) as LM by (apply Z.pow_lt_mono_r; lia).
+  destruct (wmk_val_small k w Hw) as [Hkk Vkk].
+  { split; [lia|]. apply Z.lt_trans with (2 ^ k); [apply Z.pow_gt_lin_r; lia|exact LM]. }
+  assert (wn (wmk k w) < 64) as K64 by lia.
+  destruct (washr_val w _ _ Hs Hkk K64) as (us & Eus & Hus & Vus).
+  destruct (washr_val w _ _ He Hkk K64) as (ue & Eue & Hue & Vue).
+  rewrite Eus, Eue. cbn [obind]. rewrite Vkk in Vus, Vue.
+  destruct (wkeep_lower_val w _ k Hs Hk) as (ls & Els & Hls & Vls).
+  destruct (wkeep_lower_val w _ k He Hk) as (le & Ele & Hle & Vle).
+  destruct (signed_blocks w k _ Hs Hk) as [Ds Bs]. destruct (signed_blocks w k _ He Hk) as [De Be].
+  cbv zeta in *.
+  set (Fs := to_sZ (wstart i) / 2 ^ k) in *. set (Fe := to_sZ (wend i) / 2 ^ k) in *.
+  assert (2 ^ w = 2 * 2 ^ (w - 1 - k) * 2 ^ k) as E2.
+  { rewrite (pow2_split w) by lia. replace (w - 1) with (w - 1 - k + k) at 1 by lia.
+    rewrite Z.pow_add_r by lia. ring. }
+  assert (0 < 2 ^ (w - 1 - k)) as HB by (apply pow2_pos; lia).
+  assert (2 <= 2 ^ k) as L2 by (change 2 with (2 ^ 1) at 1; apply Z.pow_le_mono_r; lia).
+  pose proof (Z.mod_pos_bound (wn (wstart i)) (2 ^ k) HL) as Rls.
+  pose proof (Z.mod_pos_bound (wn (wend i)) (2 ^ k) HL) as Rle.
+  (* the distance between the bounds, through the signed readings *)
+  assert ((wn (wend i) - wn (wstart i)) mod 2 ^ w = (to_sZ (wend i) - to_sZ (wstart i)) mod 2 ^ w) as DS.
+  { pose proof (to_sZ_wrap _ (proj1 Hs)) as W1. pose proof (to_sZ_wrap _ (proj1 He)) as W2.
+    unfold wrap, to_Z in W1, W2. destruct Hs as [_ Es]. destruct He as [_ Ee]. rewrite Es in W1. rewrite Ee in W2.
+    rewrite (Zminus_mod (to_sZ (wend i)) (to_sZ (wstart i))), W1, W2. reflexivity. }
+  unfold weq.
+  destruct (Z.eqb_spec (wn us) (wn ue)) as [EQ|NE].
+  - (* same block *)
+    rewrite Els, Ele. cbn [obind]. rewrite Vus, Vue in EQ.
+    assert (Fs = Fe) as FE by (apply (mod_eq_small (2 ^ w)); [lia|exact EQ|nia]).
+    unfold wle. destruct (Z.leb_spec (wn ls) (wn le)) as [LL|LL].
+    + eexists. split; [reflexivity|]. right. exists ls, le. split; [reflexivity|].
+      split; [exact Hls|]. split; [exact Hle|]. split; [exact Vls|]. split; [exact Vle|].
+      assert (to_sZ (wend i) - to_sZ (wstart i) = wn le - wn ls) as DD by (rewrite Vls, Vle; nia).
+      rewrite DS, DD. rewrite !Z.mod_small by lia. lia.
+    + eexists. split; [reflexivity|]. left. reflexivity.
+  - (* next block *)
+    destruct (wpreinc_spec us (proj1 Hus)) as (Wy & Ey & Vy). unfold to_Z, wrap in Vy.
+    destruct Hus as [Wus Eus']. rewrite Eus' in Vy.
+    destruct (Z.eqb_spec (wn (wpreinc us)) (wn ue)) as [EQ|NE2].
+    + rewrite Els, Ele. cbn [obind]. rewrite Vy, Vus, Vue in EQ. rewrite Zplus_mod_idemp_l in EQ.
+      assert (Fs + 1 = Fe) as FE by (apply (mod_eq_small (2 ^ w)); [lia|exact EQ|nia]).
+      unfold wle. destruct (Z.leb_spec (wn ls) (wn le)) as [LL|LL]; cbn [negb].
+      * eexists. split; [reflexivity|]. left. reflexivity.
+      * eexists. split; [reflexivity|]. right. exists ls, le. split; [reflexivity|].
+        split; [exact Hls|]. split; [exact Hle|]. split; [exact Vls|]. split; [exact Vle|].
+        assert (to_sZ (wend i) - to_sZ (wstart i) = 2 ^ k + wn le - wn ls) as DD by (rewrite Vls, Vle; nia).
+        rewrite DS, DD. rewrite (Z.mod_small (2 ^ k + wn le - wn ls)) by lia.
+        split; [lia|]. apply (Z.mod_unique (wn le - wn ls) (2 ^ k) (-1)); lia.
+    + eexists. split; [reflexivity|]. left. reflexivity.
+Qed.
+
+Lemma iwf_of_top w i : is_top i = true -> iwf w i.
+Proof. intros T. right. left. exact T. Qed.
+
+Theorem trunc_sound w i k v : iwf w i -> gamma w i v -> 1 <= k < w ->
+  exists q r, wi_trunc i k = Some q /\ iwf k q /\ wkeep_lower v k = Some r /\ gamma k q r.
+Proof.
+  intros Wi G Hk. assert (wfw w v) as Hv by apply G.
+  destruct (wkeep_lower_val w v k Hv Hk) as (r & Er & Hr & Vr).
+  destruct (is_bottom i) eqn:Bi; [elim (gamma_bot w i v Bi G)|].
+  destruct (is_top i) eqn:Ti.
+  { exists i, r. unfold wi_trunc. rewrite Bi, Ti. cbn [orb]. split; [reflexivity|].
+    split; [apply iwf_of_top; exact Ti|]. split; [exact Er|]. apply gamma_top; assumption. }
+  pose proof (range_nt_of w i Wi Bi Ti) as R. pose proof R as (B & _ & Hs & He).
+  destruct (trunc_range w i k R Hk) as (q & Eq & [->|(ls & le & -> & Hls & Hle & Vls & Vle & DL & DE)]).
+  { exists wi_top, r. split; [exact Eq|]. split; [apply iwf_top|]. split; [exact Er|].
+    apply gamma_top; [reflexivity|exact Hr]. }
+  exists (wi_mk ls le), r. split; [exact Eq|]. split; [apply iwf_mk; assumption|]. split; [exact Er|].
+  apply gamma_mk; try assumption. rewrite Vr, Vls, Vle in *.
+  pose proof (gamma_range w i v B Ti Hs He G) as Gv.
+  pose proof (wfw_range _ _ Hs) as [Hw Rs].
+  assert (0 < 2 ^ k) as HL by (apply pow2_pos; lia).
+  pose proof (Z.mod_pos_bound (wn v - wn (wstart i)) (2 ^ w) ltac:(apply pow2_pos; lia)) as Rd.
+  rewrite <- DE.
+  replace ((wn v mod 2 ^ k - wn (wstart i) mod 2 ^ k) mod 2 ^ k)
+    with ((wn v - wn (wstart i)) mod 2 ^ w) ; [exact Gv|].
+  rewrite <- Zminus_mod. rewrite <- (mod_mod_pow2 (wn v - wn (wstart i)) k w) by lia.
+  symmetry. apply Z.mod_small. lia.
+Qed.
+
+
+Lemma shl_k_sound w a kk v : iwf w a -> gamma w a v -> wfw w kk -> 1 <= wn kk < 64 ->
+  exists q r, wi_shl_k a (wn kk) = Some q /\ iwf w q /\ wshl v kk = Some r /\ gamma w q r.
+Proof.
+  intros Wa Ga Hk K. assert (wfw w v) as Hv by apply Ga.
+  destruct (wshl_val w v kk Hv Hk ltac:(lia)) as (r & Er & Hr & Vr).
+  unfold wi_shl_k. destruct (is_bottom a) eqn:Ba; [elim (gamma_bot w a v Ba Ga)|].
+  destruct (is_top a) eqn:Ta.
+  { exists a, r. split; [reflexivity|]. split; [exact Wa|]. split; [exact Er|]. apply gamma_top; assumption. }
+  pose proof (range_nt_of w a Wa Ba Ta) as R. pose proof R as (B & _ & Hs & He).
+  pose proof (wfw_range _ _ Hs) as [Hw Rs].
+  assert (get_bitwidth (wstart a) = w) as -> by apply Hs.
+  assert (0 < 2 ^ w) as HM by (apply pow2_pos; lia).
+  destruct (Z.leb_spec w (wn kk)) as [KW|KW].
+  - (* everything is shifted out *)
+    destruct (wmk_val_small 0 w Hw ltac:(lia)) as [Hz Vz].
+    exists (wi_single (wmk 0 w)), r. split; [reflexivity|]. split; [apply iwf_mk; assumption|].
+    split; [exact Er|].
+    assert (r = wmk 0 w) as ->; [|apply singleton_sound; exact Hz].
+    apply wrapint_eq; [destruct Hr as [_ ->]; destruct Hz as [_ ->]; reflexivity|].
+    rewrite Vr, Vz. replace (wn kk) with (w + (wn kk - w)) by lia. rewrite Z.pow_add_r by lia.
+    replace (wn v * (2 ^ w * 2 ^ (wn kk - w))) with (wn v * 2 ^ (wn kk - w) * 2 ^ w) by ring.
+    apply Z.mod_mul. lia.
+  - destruct (trunc_range w a (w - wn kk) R ltac:(lia)) as (y & Ey & Cy). rewrite Ey. cbn [obind].
+    destruct (is_top y) eqn:Ty; cbn [negb].
+    { exists wi_top, r. split; [reflexivity|]. split; [apply iwf_top|]. split; [exact Er|].
+      apply gamma_top; [reflexivity|exact Hr]. }
+    destruct Cy as [->|(ls & le & _ & _ & _ & _ & _ & DL & _)]; [discriminate|].
+    rewrite (wmk_amount w kk Hk).
+    destruct (wshl_val w _ kk Hs Hk ltac:(lia)) as (lo & Elo & Hlo & Vlo).
+    destruct (wshl_val w _ kk He Hk ltac:(lia)) as (hi & Ehi & Hhi & Vhi).
+    rewrite Elo, Ehi. cbn [obind]. exists (wi_mk lo hi), r. split; [reflexivity|].
+    split; [apply iwf_mk; assumption|]. split; [exact Er|].
+    apply gamma_mk; try assumption. rewrite Vr, Vlo, Vhi.
+    pose proof (gamma_range w a v B Ta Hs He Ga) as Gv.
+    pose proof (Z.mod_pos_bound (wn v - wn (wstart a)) (2 ^ w) HM) as Rd.
+    pose proof (Z.mod_pos_bound (wn (wend a) - wn (wstart a)) (2 ^ w) HM) as RD.
+    assert (0 < 2 ^ wn kk) as HK by (apply pow2_pos; lia).
+    assert (2 ^ w = 2 ^ (w - wn kk) * 2 ^ wn kk) as EM by (rewrite <- Z.pow_add_r by lia; f_equal; lia).
+    assert (forall p, ((p * 2 ^ wn kk) mod 2 ^ w - (wn (wstart a) * 2 ^ wn kk) mod 2 ^ w) mod 2 ^ w =
+                      ((p - wn (wstart a)) mod 2 ^ w * 2 ^ wn kk) mod 2 ^ w) as X.
+    { intros p. rewrite <- Zminus_mod, <- Z.mul_sub_distr_r, Zmult_mod_idemp_l. reflexivity. }
+    rewrite !X.
+    set (d := (wn v - wn (wstart a)) mod 2 ^ w) in *. set (D := (wn (wend a) - wn (wstart a)) mod 2 ^ w) in *.
+    rewrite (Z.mod_small (d * 2 ^ wn kk)), (Z.mod_small (D * 2 ^ wn kk)) by nia. nia.
+Qed.
+
+Theorem shl_sound w a x v kk : iwf w a -> iwf w x -> gamma w a v -> gamma w x kk -> 1 <= wn kk < 64 ->
+  exists q r, wi_shl a x = Some q /\ iwf w q /\ wshl v kk = Some r /\ gamma w q r.
+Proof.
+  intros Wa Wx Ga Gx K. unfold wi_shl.
+  destruct (is_bottom a) eqn:Ba; [elim (gamma_bot w a v Ba Ga)|].
+  destruct (is_singleton x) eqn:S.
+  - rewrite <- (single_member w x kk Wx S Gx). unfold get_uint64_t. apply shl_k_sound; try assumption. apply Gx.
+  - destruct (wshl_val w v kk (proj1 Ga) (proj1 Gx) ltac:(lia)) as (r & Er & Hr & _).
+    exists wi_top, r. split; [reflexivity|]. split; [apply iwf_top|]. split; [exact Er|].
+    apply gamma_top; [reflexivity|exact Hr].
+Qed.
+
+(* ---------------------------------------------------------------- extensions *)
+
+
+Lemma wzext_val w a k : wfw w a -> 0 <= k -> w + k <= 64 ->
+  exists r, wzext a k = Some r /\ wfw (w + k) r /\ wn r = wn a.
+Proof.
+  intros [Wa Ea] Hk L. pose proof (wzext_spec a k Wa Hk) as S. rewrite Ea in S.
+  destruct (wzext a k) as [r|]; [|lia]. destruct S as (_ & Wr & Er & Vr).
+  exists r. split; [reflexivity|]. split; [split; assumption|exact Vr].
+Qed.
+Lemma wsext_val w a k : wfw w a -> 0 <= k -> w + k <= 64 ->
+  exists r, wsext a k = Some r /\ wfw (w + k) r /\ wn r = to_sZ a mod 2 ^ (w + k).
+Proof.
+  intros [Wa Ea] Hk L. pose proof (wsext_spec a k Wa Hk) as S. rewrite Ea in S.
+  destruct (wsext a k) as [r|]; [|lia]. destruct S as (_ & Wr & Er & Vr).
+  exists r. split; [reflexivity|]. split; [split; assumption|exact Vr].
+Qed.
+
+Section ExtFold.
+  Variable w k : Z.
+  Variable ext : wrapint -> Z -> option wrapint.
+  Variable P : witv -> Prop.
+  Hypothesis piece_sound : forall p, P p ->
+    is_bottom p = false /\ is_top p = false /\
+    exists lo hi, ext (wstart p) k = Some lo /\ ext (wend p) k = Some hi /\
+                  wfw (w + k) lo /\ wfw (w + k) hi /\
+                  forall v, gamma w p v -> exists r, ext v k = Some r /\ gamma (w + k) (wi_mk lo hi) r.
+
+  Lemma ext_pieces_spec l : Forall P l -> forall res, iwf (w + k) res ->
+    exists res', ext_pieces ext k l res = Some res' /\ iwf (w + k) res' /\
+      (forall r, gamma (w + k) res r -> gamma (w + k) res' r) /\
+      (forall v, Exists (fun p => gamma w p v) l -> exists r, ext v k = Some r /\ gamma (w + k) res' r).
+  Proof.
+    intros F. induction F as [|p l Pp F IH]; intros res Wr; cbn [ext_pieces].
+    - exists res. split; [reflexivity|]. split; [exact Wr|]. split; [auto|]. intros v E. inversion E.
+    - destruct (piece_sound p Pp) as (B & T & lo & hi & Elo & Ehi & Hlo & Hhi & S). rewrite B, T. cbn [orb].
+      rewrite Elo, Ehi. cbn [obind].
+      pose proof (iwf_mk (w + k) lo hi Hlo Hhi) as Wp.
+      destruct (IH _ (iwf_join (w + k) res _ Wr Wp)) as (res' & E' & W' & M' & S').
+      exists res'. split; [exact E'|]. split; [exact W'|]. split.
+      + intros r G. apply M'. apply join_sound; auto.
+      + intros v E. inversion E as [? ? G|? ? E2]; subst.
+        * destruct (S v G) as (r & Er & Gr). exists r. split; [exact Er|]. apply M'. apply join_sound; auto.
+        * apply S'. exact E2.
+  Qed.
+End ExtFold.
+
+Lemma unsigned_split_nt w i : range_nt w i ->
+  exists l, unsigned_split i = Some l /\ Forall (fun p => sfree w p /\ is_top p = false) l /\
+            (forall v, gamma w i v -> existsb (inp (wn v)) l = true).
+Proof.
+  intros R. destruct (unsigned_split_spec w i R) as (l & E & F & C). exists l. split; [exact E|]. split; [|exact C].
+  rewrite (unsigned_split_range w i R) in E. pose proof R as (B & T & Hs & He).
+  pose proof (wfw_range _ _ Hs) as [Hw Rs]. pose proof (wfw_range _ _ He) as [_ Re].
+  destruct (umax_val w Hw) as [Hmax Vmax]. destruct (umin_val w Hw) as [Hmin Vmin].
+  destruct (Z.leb_spec (wn (wstart i)) (wn (wend i))) as [L|L]; inversion E; subst l.
+  - inversion F; subst. constructor; [split; assumption|constructor].
+  - inversion F as [|? ? F1 F']; subst. inversion F' as [|? ? F2 _]; subst.
+    constructor; [split; [exact F1|]|constructor; [split; [exact F2|]|constructor]];
+      rewrite (is_top_cmp w) by (try reflexivity; assumption); cbn [wi_mk wstart wend];
+      rewrite ?Vmax, ?Vmin; dec_all.
+Qed.
+
+Theorem zext_sound w i k v : iwf w i -> is_top i = false -> gamma w i v -> 0 <= k -> w + k <= 64 ->
+  exists q r, wi_zext i k = Some q /\ iwf (w + k) q /\ wzext v k = Some r /\ gamma (w + k) q r.
+Proof.
+  intros Wi Ti G Hk L. assert (wfw w v) as Hv by apply G.
+  destruct (is_bottom i) eqn:Bi; [elim (gamma_bot w i v Bi G)|].
+  pose proof (range_nt_of w i Wi Bi Ti) as R.
+  destruct (unsigned_split_nt w i R) as (l & El & Fl & Cl).
+  unfold wi_zext. rewrite El. cbn [obind].
+  destruct (ext_pieces_spec w k wzext (fun p => sfree w p /\ is_top p = false)) with (l := l) (res := wi_bottom)
+    as (q & Eq & Wq & _ & Sq).
+  - intros p [Fp Tp]. pose proof Fp as (Bp & Hs & He & Lp).
+    split; [exact Bp|]. split; [exact Tp|].
+    destruct (wzext_val w _ k Hs Hk L) as (lo & Elo & Hlo & Vlo).
+    destruct (wzext_val w _ k He Hk L) as (hi & Ehi & Hhi & Vhi).
+    exists lo, hi. split; [exact Elo|]. split; [exact Ehi|]. split; [exact Hlo|]. split; [exact Hhi|].
+    intros u Gu. destruct (wzext_val w u k (proj1 Gu) Hk L) as (r & Er & Hr & Vr).
+    exists r. split; [exact Er|]. apply gamma_mk_le; try assumption. rewrite Vlo, Vhi, Vr.
+    apply (sfree_bounds w p u Fp Gu).
+  - exact Fl.
+  - apply iwf_bottom.
+  - destruct (Sq v) as (r & Er & Gr).
+    + apply (exists_of_existsb w); [exact Hv| |apply Cl; exact G].
+      eapply Forall_impl; [|exact Fl]. intros p [(A & B & C & _) _]. auto.
+    + exists q, r. auto.
+Qed.
+
+Theorem sext_sound w i k v : iwf w i -> is_top i = false -> gamma w i v -> 0 <= k -> w + k <= 64 ->
+  exists q r, wi_sext i k = Some q /\ iwf (w + k) q /\ wsext v k = Some r /\ gamma (w + k) q r.
+Proof.
+  intros Wi Ti G Hk L. assert (wfw w v) as Hv by apply G.
+  destruct (is_bottom i) eqn:Bi; [elim (gamma_bot w i v Bi G)|].
+  pose proof (range_nt_of w i Wi Bi Ti) as R.
+  destruct (signed_split_spec w i R) as (l & El & F1 & F2 & Cl).
+  unfold wi_sext. rewrite El. cbn [obind].
+  destruct (ext_pieces_spec w k wsext (fun p => range_nt w p /\ cross_north w p = false)) with (l := l) (res := wi_bottom)
+    as (q & Eq & Wq & _ & Sq).
+  - intros p [Rp Cp]. pose proof Rp as (Bp & Tp & Hs & He).
+    split; [exact Bp|]. split; [exact Tp|].
+    destruct (wsext_val w _ k Hs Hk L) as (lo & Elo & Hlo & Vlo).
+    destruct (wsext_val w _ k He Hk L) as (hi & Ehi & Hhi & Vhi).
+    exists lo, hi. split; [exact Elo|]. split; [exact Ehi|]. split; [exact Hlo|]. split; [exact Hhi|].
+    intros u Gu. destruct (wsext_val w u k (proj1 Gu) Hk L) as (r & Er & Hr & Vr).
+    exists r. split; [exact Er|]. apply gamma_mk; try assumption. rewrite Vlo, Vhi, Vr.
+    pose proof (signed_bounds w p u Rp Cp Gu) as Bu.
+    pose proof (to_sZ_range _ (proj1 Hs)) as R1. pose proof (to_sZ_range _ (proj1 He)) as R2.
+    pose proof (wfw_range _ _ Hs) as [Hw _].
+    destruct Hs as [_ Es]. destruct He as [_ Ee]. rewrite Es in R1. rewrite Ee in R2.
+    destruct (half_pow w ltac:(lia)) as [M2 HP].
+    assert (2 ^ w <= 2 ^ (w + k)) by (apply Z.pow_le_mono_r; lia).
+    apply interval_mod_Z; [apply pow2_pos; lia|exact Bu|lia].
+  - clear - F1 F2. induction F1; inversion F2; subst; constructor; auto.
+  - apply iwf_bottom.
+  - destruct (Sq v) as (r & Er & Gr).
+    + apply (exists_of_existsb w); [exact Hv| |apply Cl; exact G].
+      eapply Forall_impl; [|exact F1]. intros p (A & _ & B & C). auto.
+    + exists q, r. auto.
+Qed.
+
+(* ---------------------------------------------------------------- conversions, half lines, trimming *)
+
+
+(* to_interval: the signed readings of the members lie between the bounds *)
+Theorem to_interval_sound w i v : iwf w i -> gamma w i v ->
+  match wi_to_interval i with
+  | Some IVBot => False
+  | Some IVTop => True
+  | Some (IVRange l u) => l <= to_sZ v <= u
+  | None => False
+  end.
+Proof.
+  intros Wi G. unfold wi_to_interval.
+  destruct (is_bottom i) eqn:Bi; [exact (gamma_bot w i v Bi G)|].
+  destruct (is_top i) eqn:Ti; [exact I|].
+  pose proof (range_nt_of w i Wi Bi Ti) as R. pose proof R as (_ & _ & Hs & He).
+  rewrite (cross_signed_limit_val w i R). cbn [obind].
+  destruct (cross_north w i) eqn:CN; [exact I|].
+  rewrite !get_signed_bignum_spec by (apply Hs || apply He).
+  exact (signed_bounds w i v R CN G).
+Qed.
+
+Theorem lower_half_line_signed_sound w i v u : iwf w i -> gamma w i v -> wfw w u -> to_sZ u <= to_sZ v ->
+  gamma w (wi_lower_half_line i true) u.
+Proof.
+  intros Wi G Hu L. unfold wi_lower_half_line.
+  destruct (is_top i) eqn:Ti; [apply gamma_top; assumption|].
+  destruct (is_bottom i) eqn:Bi; [elim (gamma_bot w i v Bi G)|]. cbn [orb].
+  pose proof (range_nt_of w i Wi Bi Ti) as R. pose proof R as (B & _ & Hs & He).
+  pose proof (wfw_range _ _ Hs) as [Hw Rs]. pose proof (wfw_range _ _ He) as [_ Re].
+  assert (get_bitwidth (wstart i) = w) as -> by apply Hs.
+  destruct (smax_val w Hw) as [Hmax Vmax]. destruct (smin_val w Hw) as [Hmin Vmin].
+  rewrite (at_inb w) by assumption. rewrite Vmax.
+  pose proof (gamma_inb w i v B Ti Hs He G) as Iv.
+  destruct (inb _ _ (2 ^ (w - 1) - 1)) eqn:AT; [apply gamma_top; [reflexivity|exact Hu]|].
+  apply gamma_mk_inb; try assumption. rewrite Vmin.
+  pose proof (wfw_range _ _ Hu) as [_ Ru]. pose proof (wfw_range _ _ (proj1 G)) as [_ Rv].
+  rewrite (to_sZ_val w _ Hu), (to_sZ_val w _ (proj1 G)) in L.
+  destruct (half_pow w ltac:(lia)) as [M2 HP]. unfold inb in *. clear Ti. dec_all.
+Qed.
+
+Theorem lower_half_line_unsigned_sound w i v u : iwf w i -> gamma w i v -> wfw w u -> wn u <= wn v ->
+  gamma w (wi_lower_half_line i false) u.
+Proof.
+  intros Wi G Hu L. unfold wi_lower_half_line.
+  destruct (is_top i) eqn:Ti; [apply gamma_top; assumption|].
+  destruct (is_bottom i) eqn:Bi; [elim (gamma_bot w i v Bi G)|]. cbn [orb].
+  pose proof (range_nt_of w i Wi Bi Ti) as R. pose proof R as (B & _ & Hs & He).
+  pose proof (wfw_range _ _ Hs) as [Hw Rs]. pose proof (wfw_range _ _ He) as [_ Re].
+  assert (get_bitwidth (wstart i) = w) as -> by apply Hs.
+  destruct (umax_val w Hw) as [Hmax Vmax]. destruct (umin_val w Hw) as [Hmin Vmin].
+  rewrite (at_inb w) by assumption. rewrite Vmax.
+  pose proof (gamma_inb w i v B Ti Hs He G) as Iv.
+  destruct (inb _ _ (2 ^ w - 1)) eqn:AT; [apply gamma_top; [reflexivity|exact Hu]|].
+  apply gamma_mk_inb; try assumption. rewrite Vmin.
+  pose proof (wfw_range _ _ Hu) as [_ Ru]. pose proof (wfw_range _ _ (proj1 G)) as [_ Rv].
+  unfold inb in *. clear Ti. dec_all.
+Qed.
+
+Theorem upper_half_line_signed_sound w i v u : iwf w i -> gamma w i v -> wfw w u -> to_sZ v <= to_sZ u ->
+  gamma w (wi_upper_half_line i true) u.
+Proof.
+  intros Wi G Hu L. unfold wi_upper_half_line.
+  destruct (is_top i) eqn:Ti; [apply gamma_top; assumption|].
+  destruct (is_bottom i) eqn:Bi; [elim (gamma_bot w i v Bi G)|]. cbn [orb].
+  pose proof (range_nt_of w i Wi Bi Ti) as R. pose proof R as (B & _ & Hs & He).
+  pose proof (wfw_range _ _ Hs) as [Hw Rs]. pose proof (wfw_range _ _ He) as [_ Re].
+  assert (get_bitwidth (wstart i) = w) as -> by apply Hs.
+  destruct (smax_val w Hw) as [Hmax Vmax]. destruct (smin_val w Hw) as [Hmin Vmin].
+  rewrite (at_inb w) by assumption. rewrite Vmin.
+  pose proof (gamma_inb w i v B Ti Hs He G) as Iv.
+  destruct (inb _ _ (2 ^ (w - 1))) eqn:AT; [apply gamma_top; [reflexivity|exact Hu]|].
+  apply gamma_mk_inb; try assumption. rewrite Vmax.
+  pose proof (wfw_range _ _ Hu) as [_ Ru]. pose proof (wfw_range _ _ (proj1 G)) as [_ Rv].
+  rewrite (to_sZ_val w _ Hu), (to_sZ_val w _ (proj1 G)) in L.
+  destruct (half_pow w ltac:(lia)) as [M2 HP]. unfold inb in *. clear Ti. dec_all.
+Qed.
+
+Theorem upper_half_line_unsigned_sound w i v u : iwf w i -> gamma w i v -> wfw w u -> wn v <= wn u ->
+  gamma w (wi_upper_half_line i false) u.
+Proof.
+  intros Wi G Hu L. unfold wi_upper_half_line.
+  destruct (is_top i) eqn:Ti; [apply gamma_top; assumption|].
+  destruct (is_bottom i) eqn:Bi; [elim (gamma_bot w i v Bi G)|]. cbn [orb].
+  pose proof (range_nt_of w i Wi Bi Ti) as R. pose proof R as (B & _ & Hs & He).
+  pose proof (wfw_range _ _ Hs) as [Hw Rs]. pose proof (wfw_range _ _ He) as [_ Re].
+  assert (get_bitwidth (wstart i) = w) as -> by apply Hs.
+  destruct (umax_val w Hw) as [Hmax Vmax]. destruct (umin_val w Hw) as [Hmin Vmin].
+  rewrite (at_inb w) by assumption. rewrite Vmin.
+  pose proof (gamma_inb w i v B Ti Hs He G) as Iv.
+  destruct (inb _ _ 0) eqn:AT; [apply gamma_top; [reflexivity|exact Hu]|].
+  apply gamma_mk_inb; try assumption. rewrite Vmax.
+  pose proof (wfw_range _ _ Hu) as [_ Ru]. pose proof (wfw_range _ _ (proj1 G)) as [_ Rv].
+  unfold inb in *. clear Ti. dec_all.
+Qed.
+
+(* trim_interval: removing a singleton bound keeps every other member *)
+Lemma trim_start_Z M s e v : 0 < M -> (v - s) mod M <= (e - s) mod M -> (v - s) mod M <> 0 ->
+  (v - (s + 1) mod M) mod M <= (e - (s + 1) mod M) mod M.
+Proof.
+  intros HM L NZ. pose proof (Z.mod_pos_bound (v - s) M HM). pose proof (Z.mod_pos_bound (e - s) M HM).
+  rewrite !Zminus_mod_idemp_r.
+  replace (v - (s + 1)) with ((v - s) - 1) by lia. replace (e - (s + 1)) with ((e - s) - 1) by lia.
+  rewrite (Zminus_mod (v - s)), (Zminus_mod (e - s)).
+  destruct (Z.eq_dec M 1) as [->|M1]; [rewrite !Z.mod_1_r; lia|].
+  rewrite (Z.mod_small 1) by lia.
+  rewrite (Z.mod_small ((v - s) mod M - 1)), (Z.mod_small ((e - s) mod M - 1)) by lia. lia.
+Qed.
+Lemma trim_end_Z M s e v : 0 < M -> (v - s) mod M <= (e - s) mod M -> (v - s) mod M <> (e - s) mod M ->
+  (v - s) mod M <= ((e - 1) mod M - s) mod M.
+Proof.
+  intros HM L NZ. pose proof (Z.mod_pos_bound (v - s) M HM). pose proof (Z.mod_pos_bound (e - s) M HM).
+  rewrite Zminus_mod_idemp_l. replace (e - 1 - s) with ((e - s) - 1) by lia.
+  rewrite (Zminus_mod (e - s)).
+  destruct (Z.eq_dec M 1) as [->|M1]; [rewrite !Z.mod_1_r in *; lia|].
+  rewrite (Z.mod_small 1) by lia. rewrite (Z.mod_small ((e - s) mod M - 1)) by lia. lia.
+Qed.
+
+Theorem trim_interval_sound w i j v c : iwf w i -> iwf w j -> gamma w i v -> gamma w j c -> v <> c ->
+  gamma w (wi_trim_interval i j) v.
+Proof.
+  intros Wi Wj G Gc NE. unfold wi_trim_interval.
+  destruct (is_bottom i) eqn:Bi; [exact G|]. destruct (is_top i) eqn:Ti; [exact G|].
+  destruct (is_singleton j) eqn:Sj; cbn [negb]; [|exact G].
+  pose proof (single_member w j c Wj Sj Gc) as EC. subst c.
+  pose proof (range_nt_of w i Wi Bi Ti) as R. pose proof R as (B & _ & Hs & He).
+  pose proof (wfw_range _ _ Hs) as [Hw Rs].
+  assert (0 < 2 ^ w) as HM by (apply pow2_pos; lia).
+  pose proof (gamma_range w i v B Ti Hs He G) as Gv. assert (wfw w v) as Hv by apply G.
+  assert (wfw w (wstart j)) as Hk by apply Gc.
+  unfold weq.
+  destruct (Z.eqb_spec (wn (wstart i)) (wn (wstart j))) as [E1|E1].
+  - assert (wstart i = wstart j) as ES.
+    { apply wrapint_eq; [destruct Hs as [_ ->]; destruct Hk as [_ ->]; reflexivity|exact E1]. }
+    assert ((wn v - wn (wstart i)) mod 2 ^ w <> 0) as NZ.
+    { intros Z0. apply NE. rewrite <- ES. apply wrapint_eq; [destruct Hs as [_ ->]; destruct Hv as [_ ->]; reflexivity|].
+      pose proof (wfw_range _ _ Hv) as [_ Rv].
+      destruct (msub_cases (2 ^ w) (wn v) (wn (wstart i)) Rv Rs) as [[E ?]|[E ?]]; rewrite E in Z0; lia. }
+    destruct (is_singleton i) eqn:Si.
+    + exfalso. unfold is_singleton in Si. apply andb_true_iff in Si. destruct Si as [_ Si].
+      unfold weq in Si. apply Z.eqb_eq in Si. rewrite <- Si, Z.sub_diag, Z.mod_0_l in Gv by lia.
+      pose proof (Z.mod_pos_bound (wn v - wn (wstart i)) (2 ^ w) HM). lia.
+    + destruct (wpreinc_spec (wstart j) (proj1 Hk)) as (Wp & Ep & Vp). unfold to_Z, wrap in Vp.
+      assert (wfw w (wpreinc (wstart j))) as Hp by (split; [exact Wp|rewrite Ep; apply Hk]).
+      apply gamma_mk; try assumption. rewrite Vp. destruct Hk as [_ ->]. rewrite <- E1.
+      apply trim_start_Z; assumption.
+  - destruct (Z.eqb_spec (wn (wend i)) (wn (wstart j))) as [E2|E2]; [|exact G].
+    assert (wend i = wstart j) as ES.
+    { apply wrapint_eq; [destruct He as [_ ->]; destruct Hk as [_ ->]; reflexivity|exact E2]. }
+    destruct (is_singleton i) eqn:Si.
+    + exfalso. unfold is_singleton in Si. apply andb_true_iff in Si. destruct Si as [_ Si].
+      unfold weq in Si. apply Z.eqb_eq in Si. lia.
+    + destruct (wpredec_spec (wstart j) (proj1 Hk)) as (Wp & Ep & Vp). unfold to_Z, wrap in Vp.
+      assert (wfw w (wpredec (wstart j))) as Hp by (split; [exact Wp|rewrite Ep; apply Hk]).
+      apply gamma_mk; try assumption. rewrite Vp. destruct Hk as [_ ->]. rewrite <- E2.
+      apply trim_end_Z; [assumption|assumption|].
+      intros EQ. apply NE. rewrite <- ES.
+      apply wrapint_eq; [destruct He as [_ ->]; destruct Hv as [_ ->]; reflexivity|].
+      pose proof (wfw_range _ _ Hv) as [_ Rv]. pose proof (wfw_range _ _ He) as [_ Re].
+      destruct (msub_cases (2 ^ w) (wn v) (wn (wstart i)) Rv Rs) as [[E ?]|[E ?]];
+      destruct (msub_cases (2 ^ w) (wn (wend i)) (wn (wstart i)) Re Rs) as [[E' ?]|[E' ?]]; rewrite E, E' in EQ; lia.
+Qed.
+
+(* ---------------------------------------------------------------- membership, examples *)
+
+
+(* membership in [s,e]: going clockwise from s, v is met before e *)
+Theorem gamma_mk_iff w s e v : wfw w s -> wfw w e -> wfw w v ->
+  (gamma w (wi_mk s e) v <-> (wn v - wn s) mod 2 ^ w <= (wn e - wn s) mod 2 ^ w).
+Proof.
+  intros Hs He Hv. split; [|apply gamma_mk; assumption].
+  intros G. destruct (is_top (wi_mk s e)) eqn:T.
+  - rewrite (is_top_range w) in T by (try reflexivity; assumption). cbn [wi_mk wstart wend] in T.
+    apply Z.eqb_eq in T. rewrite T. pose proof (wfw_range _ _ Hs) as [Hw _].
+    pose proof (Z.mod_pos_bound (wn v - wn s) (2 ^ w) ltac:(apply pow2_pos; lia)). lia.
+  - exact (gamma_range w (wi_mk s e) v eq_refl T Hs He G).
+Qed.
+
+Theorem gamma_bottom_empty w v : ~ gamma w wi_bottom v.
+Proof. apply gamma_bot. reflexivity. Qed.
+Theorem gamma_top_all w v : wfw w v -> gamma w wi_top v.
+Proof. apply gamma_top. reflexivity. Qed.
+
+(* non-vacuity: an interval across the south pole, one across the north pole *)
+Example gamma_example_south : gamma 8 (wi_mk (mkW 250 8) (mkW 5 8)) (mkW 2 8).
+Proof. split; [split; [split; simpl; lia|reflexivity]|reflexivity]. Qed.
+Example gamma_example_north : gamma 8 (wi_mk (mkW 120 8) (mkW 130 8)) (mkW 128 8).
+Proof. split; [split; [split; simpl; lia|reflexivity]|reflexivity]. Qed.
+Example iwf_example : iwf 8 (wi_mk (mkW 250 8) (mkW 5 8)).
+Proof. apply iwf_mk; split; try reflexivity; split; simpl; lia. Qed.
+Example mul_example :
+  wi_mul (wi_mk (mkW 0 8) (mkW 2 8)) (wi_mk (mkW 128 8) (mkW 255 8)) = Some wi_top.
+Proof. vm_compute. reflexivity. Qed.
+Example udiv_example :
+  exists q, wi_udiv (wi_mk (mkW 200 8) (mkW 100 8)) (wi_mk (mkW 1 8) (mkW 10 8)) = Some q /\
+            wi_at q (mkW 255 8) = true /\ wi_at q (mkW 0 8) = true.
+Proof. eexists. split; [vm_compute; reflexivity|]. split; reflexivity. Qed.
+Example widen_example :
+  wi_widen (wi_mk (mkW 3 8) (mkW 5 8)) (wi_mk (mkW 5 8) (mkW 3 8)) = Some wi_top.
+Proof. vm_compute. reflexivity. Qed.
